@@ -156,7 +156,7 @@ fn check_cmd(args: &[String]) -> i32 {
         property: property.clone(), world: "W2".into(), tier: tier.clone(), seed, level: "exploration".into(),
         rule: format!("W2 replica world: 2-3 real Interpreters per run, each on its own thread with its own PRNG-chosen hash seed (so HashMap/IndexMap iteration orders differ between replicas), fed the same program and then step requests; the PRNG decides which replica executes its next command (commands of different replicas interleave inside one host process, exactly one runs at a time), how each replica's total of 0-12 steps is decomposed (one request for n, n single steps, a random composition, requests for zero steps) and the per-replica profile/trace knobs. Programs: the {} snippets harvested at run time from /repo/tests/*.rs plus the sampler (the first runs walk the corpus in order), and programs generated by W1's generator with and without mutation statements. Oracle after every command: replicas that executed the same total number of steps hold equal symbol tables and returned equal results; interpret() outcomes agree; a program whose text certainly contains no assignment/op-assignment is left exactly as interpret left it. A run is non-trivial if interpret succeeded and at least one step was executed; distinct = digest over program, schedule and every replica's outcomes/store digests.", corpus_len),
         worker_args: vec!["worker".into(), "--world".into(), "W2".into(), "--seed".into(), seed.to_string()],
-        runs: if thorough { 400_000 } else { corpus_len + 12_000 },
+        runs: if thorough { 600_000 } else { corpus_len + 40_000 },
         budget: Duration::from_secs(if thorough { 600 } else { 55 }),
         chunk: 16,
         evidence: base.join("evidence/C19.json"),
@@ -203,6 +203,7 @@ fn check_cmd(args: &[String]) -> i32 {
   };
   if let Some(r) = runs_override { spec.runs = r; }
   if let Some(b) = budget_override { spec.budget = Duration::from_secs(b); }
+  if let Some(b) = std::env::var("VERIF_BUDGET_S").ok().and_then(|s| s.parse::<u64>().ok()) { spec.budget = Duration::from_secs(b); }
   if let Some(e) = arg(args, "--evidence") { spec.evidence = PathBuf::from(e); }
   drive(spec)
 }
